@@ -321,7 +321,7 @@ fn check_type_relation<T: TypeLookup>(
             // Insert assumption for recursive types
             assumptions.insert(key);
 
-            match mode {
+            let result = match mode {
                 UnionMode::All => variants.iter().all(|&variant_id| {
                     check_type_relation(
                         variant_id,
@@ -342,7 +342,14 @@ fn check_type_relation<T: TypeLookup>(
                         type_stack,
                     )
                 }),
+            };
+            // The hypothesis only stands if it was confirmed; left in place after a failure it
+            // would make a later comparison of the same pair (e.g. under the next variant of an
+            // enclosing union) succeed vacuously.
+            if !result {
+                assumptions.remove(&key);
             }
+            result
         }
 
         // Union on right side: self must match ANY variant (same for both modes)
@@ -362,6 +369,10 @@ fn check_type_relation<T: TypeLookup>(
             });
             if !already_on_stack {
                 type_stack.pop();
+            }
+            // As above: a refuted hypothesis must not outlive this comparison.
+            if !result {
+                assumptions.remove(&key);
             }
             result
         }
@@ -449,24 +460,83 @@ fn check_type_relation<T: TypeLookup>(
                 fields: fields2,
             },
         ) => {
-            // Names must match if both have names
-            if name1.is_some() && name2.is_some() && name1 != name2 {
+            match mode {
+                // Assignability: a named pattern only admits tuples of that name, so an unnamed
+                // (any-name) partial is not assignable to it; and every field the pattern
+                // requires must be required by self with an assignable type.
+                UnionMode::All => {
+                    if name2.is_some() && name1 != name2 {
+                        return false;
+                    }
+                    fields2.iter().all(|(fname2, ftype2)| {
+                        fields1.iter().any(|(fname1, ftype1)| {
+                            fname1 == fname2
+                                && check_type_relation(
+                                    *ftype1,
+                                    *ftype2,
+                                    lookup,
+                                    mode,
+                                    assumptions,
+                                    type_stack,
+                                )
+                        })
+                    })
+                }
+                // Overlap: the names must not conflict, and the fields both sides constrain must
+                // overlap (a field only one side mentions is unconstrained on the other).
+                UnionMode::Any => {
+                    if name1.is_some() && name2.is_some() && name1 != name2 {
+                        return false;
+                    }
+                    fields2.iter().all(|(fname2, ftype2)| {
+                        fields1.iter().all(|(fname1, ftype1)| {
+                            fname1 != fname2
+                                || check_type_relation(
+                                    *ftype1,
+                                    *ftype2,
+                                    lookup,
+                                    mode,
+                                    assumptions,
+                                    type_stack,
+                                )
+                        })
+                    })
+                }
+            }
+        }
+
+        // Partial type vs concrete tuple: never assignable (the partial admits other tuples too),
+        // but they overlap when the tuple satisfies the partial's name and its fields overlap.
+        (
+            Type::Partial {
+                name: partial_name,
+                fields: partial_fields,
+            },
+            Type::Tuple(concrete_id),
+        ) if mode == UnionMode::Any => {
+            let Some(concrete_info) = lookup.lookup_tuple(*concrete_id) else {
+                return false;
+            };
+            if let Some(pname) = partial_name
+                && concrete_info.name.as_ref() != Some(pname)
+            {
                 return false;
             }
-
-            // All fields in pattern must exist in self with compatible types
-            fields2.iter().all(|(fname2, ftype2)| {
-                fields1.iter().any(|(fname1, ftype1)| {
-                    fname1 == fname2
-                        && check_type_relation(
-                            *ftype1,
-                            *ftype2,
-                            lookup,
-                            mode,
-                            assumptions,
-                            type_stack,
-                        )
-                })
+            partial_fields.iter().all(|(partial_fname, partial_ftype)| {
+                concrete_info
+                    .fields
+                    .iter()
+                    .any(|(concrete_fname, concrete_ftype)| {
+                        concrete_fname.as_ref() == Some(partial_fname)
+                            && check_type_relation(
+                                *partial_ftype,
+                                *concrete_ftype,
+                                lookup,
+                                mode,
+                                assumptions,
+                                type_stack,
+                            )
+                    })
             })
         }
 
@@ -516,10 +586,12 @@ fn check_type_relation<T: TypeLookup>(
                 type_stack.push(pattern_id);
             }
 
-            // Parameters are contravariant, results are covariant, receive is contravariant
-            let result =
-                check_type_relation(*param2, *param1, lookup, mode, assumptions, type_stack)
-                    && check_type_relation(
+            // Parameters are contravariant, results are covariant, receive is contravariant.
+            // For overlap only the results matter: a function accepting both parameter (and
+            // receive) types belongs to both callable types however different those are.
+            let result = (mode == UnionMode::Any
+                || check_type_relation(*param2, *param1, lookup, mode, assumptions, type_stack))
+                && check_type_relation(
                         *result1,
                         *result2,
                         lookup,
@@ -527,14 +599,15 @@ fn check_type_relation<T: TypeLookup>(
                         assumptions,
                         type_stack,
                     )
-                    && check_type_relation(
-                        *receive2,
-                        *receive1,
-                        lookup,
-                        mode,
-                        assumptions,
-                        type_stack,
-                    );
+                    && (mode == UnionMode::Any
+                        || check_type_relation(
+                            *receive2,
+                            *receive1,
+                            lookup,
+                            mode,
+                            assumptions,
+                            type_stack,
+                        ));
 
             if !already_on_stack {
                 type_stack.pop();
